@@ -52,6 +52,7 @@ REFUTATIONS = {
     "C10_reader_purge_reply_not_linearizable": "reply:get:not-found-after-its-owner-was-purged",
     "C10_reader_add_reply_not_linearizable": "reply:getsub:charged-before-the-appointment-is-stored",
     "C10_reader_block_reply_not_linearizable": "reply:get:expiry-test-before-the-block-tables-after-it",
+    "C10_register_add_replies_not_linearizable": "linear:add+reg:RO,AO",
 }
 
 
@@ -162,7 +163,7 @@ def run(ctx):
                 "stateless depth-first search on the real tower, plus every sequential order of the same operations on the real tower; "
                 "each run: replies, tables users/appointments/trackers, gatekeeper memory, RPC multiset, poisoning, per-thread lock "
                 "trace compared with the model's run_coarse on the same word; the word set compared with the model's own enumeration; "
-                "monitor (serial / unwatched / ledger / orphan / panic / reply) evaluated on the implementation's observations. "
+                "monitor (serial / unwatched / ledger / orphan / panic / reply / linear) evaluated on the implementation's observations. "
                 "distinct = distinct (case, word); all are non-trivial (every word interleaves at least two threads' lock acquisitions or "
                 "is one of the non-preemptive orders)")
             try:
@@ -183,7 +184,7 @@ def run(ctx):
                                "first": corr[0][:3000], "count": len(corr)})
         seen = set()
         # report the most telling violation first: what the property names, then serializability, then aborts
-        prio = {"unwatched": 0, "ledger": 1, "orphan": 2, "serial": 3, "panic": 4, "reply": 5}
+        prio = {"unwatched": 0, "ledger": 1, "orphan": 2, "serial": 3, "panic": 4, "reply": 5, "linear": 6}
         mon.sort(key=lambda f: (prio.get(MON_RE.match(f).group(1), 9) if MON_RE.match(f) else 9))
         for f in mon:
             m = MON_RE.match(f)
